@@ -93,6 +93,7 @@ structure St where
   cur : Scope := {}
   stack : List Scope := []
   prev : Option Tok := none
+  prevCastEnd : Bool := false     -- `prevToken == castEndToken`
   deriving Repr
 
 /-- `expressionParser::pushOutputNode` -/
@@ -120,12 +121,7 @@ def applyLeftUnary (n : OpNode) (v : Expr) : Except Err Expr :=
   let ty := n.op.ty
   if !has ty T.special then .ok (.lu n.op v)
   else if has ty T.parenCast then .ok (.cast n.castName n.castPtrs v)
-  else if has ty T.sizeof_ then
-    if sizeofStripsParentheses then
-      match v with
-      | .paren w => .ok (.sizeof w)
-      | _ => .ok (.sizeof v)
-    else .ok (.sizeof v)
+  else if has ty T.sizeof_ then .ok (.sizeof v)
   else if has ty T.new_ then .error .unsupported
   else if has ty T.delete_ then .error .unsupported
   else if has ty T.throw_ then .ok (.throw_ v)
@@ -161,7 +157,7 @@ def applyOperator (n : OpNode) (prev : Option Tok) (out : List Expr) : Except Er
   else .ok out
 
 /-- `expressionParser::operatorIsLeftUnary` for the (still ambiguous) operator `o` -/
-def isLeftUnary (o : Op) (prev next : Option Tok) : Except Err Bool :=
+def isLeftUnary (o : Op) (prev next : Option Tok) (prevCastEnd : Bool := false) : Except Err Bool :=
   let chainable : Ty := (T.increment.1 ||| T.decrement.1 ||| T.parentheses.1,
                          T.increment.2 ||| T.decrement.2 ||| T.parentheses.2)
   let onlyUnary := has o.ty T.increment || has o.ty T.decrement
@@ -171,6 +167,7 @@ def isLeftUnary (o : Op) (prev next : Option Tok) : Except Err Bool :=
   | some p, some nx =>
     let prevTy := p.opType
     if has prevTy T.pairStart then .ok true
+    else if castEndIsPrefix && prevCastEnd then .ok true
     else if pairEndEndsOperand && has nx.opType T.pairEnd then .ok false
     else
       let prevIsOp := has prevTy T.unary || has prevTy T.binary
@@ -187,10 +184,10 @@ def isLeftUnary (o : Op) (prev next : Option Tok) : Except Err Bool :=
         else .ok (!has prevTy chainable)
 
 /-- `expressionParser::updateOperatorToken` -/
-def resolve (o : Op) (prev next : Option Tok) : Except Err Op :=
+def resolve (o : Op) (prev next : Option Tok) (prevCastEnd : Bool := false) : Except Err Op :=
   if !has o.ty T.ambiguous then .ok o
   else
-    match isLeftUnary o prev next with
+    match isLeftUnary o prev next prevCastEnd with
     | .error x => .error x
     | .ok l =>
       match ambiguousTable.find? (fun e => has o.ty e.1) with
@@ -205,6 +202,7 @@ def popFaster (o : Op) (prev : Option Tok) : List Expr → List OpNode → Excep
   | out, n :: ops =>
     if has n.op.ty T.pairStart then .ok (out, n :: ops)
     else if ternaryNestsRight && has o.ty T.questionMark && n.op.prec == o.prec then .ok (out, n :: ops)
+    else if ternaryNestsRight && !has o.ty T.colon && has n.op.ty T.questionMark then .ok (out, n :: ops)
     else if ternaryNestsRight && has o.ty T.colon then
       match applyOperator n prev out with
       | .error x => .error x
@@ -236,19 +234,19 @@ def closeLoop (endOp : Op) (prev : Option Tok) : List Expr → List OpNode → E
       | .ok out' => closeLoop endOp prev out' ops
 
 /-- `expressionParser::transformLastPair` -/
-def transformLastPair (out : List Expr) (ops : List OpNode) : Except Err (List Expr × List OpNode) :=
+def transformLastPair (out : List Expr) (ops : List OpNode) : Except Err (List Expr × List OpNode × Bool) :=
   match out with
   | .pair po v :: rest =>
     if !(has po.ty T.parentheses || has po.ty T.braces) then .error .expectedIdentifier
     else if has po.ty T.parentheses then
       match v with
-      | .vtype n p => .ok (rest, { op := .parenCast, castName := n, castPtrs := p } :: ops)
-      | _ => .ok (.paren v :: rest, ops)
-    else .ok (.tuple v :: rest, ops)
+      | .vtype n p => .ok (rest, { op := .parenCast, castName := n, castPtrs := p } :: ops, true)
+      | _ => .ok (.paren v :: rest, ops, false)
+    else .ok (.tuple v :: rest, ops, false)
   | _ => .error .waldo
 
-/-- `expressionParser::attachPair` -/
-def attachPair (before : Option Tok) (out : List Expr) (ops : List OpNode) : Except Err (List Expr × List OpNode) :=
+/-- `expressionParser::attachPair`; the flag says that a cast operator was pushed -/
+def attachPair (before : Option Tok) (out : List Expr) (ops : List OpNode) : Except Err (List Expr × List OpNode × Bool) :=
   if out.length < 2 then transformLastPair out ops
   else
     match before with
@@ -257,11 +255,11 @@ def attachPair (before : Option Tok) (out : List Expr) (ops : List OpNode) : Exc
       if !has bo.ty T.pairEnd then transformLastPair out ops else attach out ops
     | some _ => attach out ops
 where
-  attach (out : List Expr) (ops : List OpNode) : Except Err (List Expr × List OpNode) :=
+  attach (out : List Expr) (ops : List OpNode) : Except Err (List Expr × List OpNode × Bool) :=
     match out with
     | .pair po v :: value :: rest =>
-      if has po.ty T.parentheses then .ok (.call value v :: rest, ops)
-      else if has po.ty T.brackets then .ok (.sub value v :: rest, ops)
+      if has po.ty T.parentheses then .ok (.call value v :: rest, ops, false)
+      else if has po.ty T.brackets then .ok (.sub value v :: rest, ops, false)
       else if has po.ty T.cudaCall then .error .unsupported
       else .error .waldo
     | _ => .error .waldo
@@ -271,7 +269,9 @@ def step (s : St) (t : Tok) (next : Option Tok) : Except Err St :=
   match t with
   | .op o =>
     if has o.ty T.pairStart then
-      .ok { cur := { out := [], ops := [{ op := o }], before := s.prev }, stack := s.cur :: s.stack, prev := some t }
+      .ok { cur := { out := [], ops := [{ op := o }],
+                     before := if castEndIsPrefix && s.prevCastEnd then none else s.prev },
+            stack := s.cur :: s.stack, prev := some t }
     else if has o.ty T.pairEnd then
       match s.stack with
       | [] => .error .trap
@@ -282,16 +282,17 @@ def step (s : St) (t : Tok) (next : Option Tok) : Except Err St :=
         | .ok (out, ops) =>
           match attachPair s.cur.before out ops with
           | .error x => .error x
-          | .ok (out', ops') => .ok { cur := { parent with out := out', ops := ops' }, stack := rest, prev := some t }
+          | .ok (out', ops', isCast) =>
+            .ok { cur := { parent with out := out', ops := ops' }, stack := rest, prev := some t, prevCastEnd := isCast }
     else
-      match resolve o s.prev next with
+      match resolve o s.prev next s.prevCastEnd with
       | .error x => .error x
       | .ok o' =>
         match popFaster o' s.prev s.cur.out s.cur.ops with
         | .error x => .error x
         | .ok (out, ops) =>
-          .ok { s with cur := { s.cur with out := out, ops := { op := o' } :: ops }, prev := some (.op o') }
-  | _ => .ok { s with cur := { s.cur with out := nodeOf t :: s.cur.out }, prev := some t }
+          .ok { s with cur := { s.cur with out := out, ops := { op := o' } :: ops }, prev := some (.op o'), prevCastEnd := false }
+  | _ => .ok { s with cur := { s.cur with out := nodeOf t :: s.cur.out }, prev := some t, prevCastEnd := false }
 
 /-- the token loop; `nxt` is what follows the last token of `ts` (nothing, for a whole expression) -/
 def run (nxt : Option Tok) : St → List Tok → Except Err St
@@ -407,6 +408,10 @@ structure Sem where
   one : P → P
   args : List (P → P)
 
+def isParenNode : Expr → Bool
+  | .paren _ => true
+  | _ => false
+
 def isEmptyNode : Expr → Bool
   | .empty => true
   | _ => false
@@ -476,7 +481,11 @@ def sem : Expr → Sem
     { one, args := [one] }
   | .sizeof e =>
     let se := sem e
-    let one := fun (p : P) => (se.one (p.puts "sizeof(")).puts ")"
+    let one := fun (p : P) =>
+      if !sizeofPrintsAsWritten then (se.one (p.puts "sizeof(")).puts ")"
+      else if isParenNode e then se.one (p.puts "sizeof")
+      else if isTypeNode e then (se.one (p.puts "sizeof(")).puts ")"
+      else se.one (p.puts "sizeof ")
     { one, args := [one] }
   | .throw_ e =>
     let se := sem e
@@ -510,7 +519,7 @@ def printToks : Expr → List Tok
   | .call f a => printToks f ++ [.op .parenthesesStart] ++ printToks a ++ [.op .parenthesesEnd]
   | .sub v i => printToks v ++ [.op .bracketStart] ++ printToks i ++ [.op .bracketEnd]
   | .cast n k e => [.op .parenthesesStart, .vtype n k, .op .parenthesesEnd] ++ printToks e
-  | .sizeof e => [.op .sizeof_, .op .parenthesesStart] ++ printToks e ++ [.op .parenthesesEnd]
+  | .sizeof e => .op .sizeof_ :: printToks e
   | .throw_ e => .op .throw_ :: printToks e
   | .tuple a => [.op .braceStart] ++ printToks a ++ [.op .braceEnd]
   | .pair _ _ => []
@@ -555,18 +564,44 @@ def takeWhileC (f : Char → Bool) : List Char → List Char × List Char
   | [] => ([], [])
   | c :: cs => if f c then let (a, b) := takeWhileC f cs; (c :: a, b) else ([], c :: cs)
 
-/-- a numeric literal: digits, letters, dots, and a sign right after a decimal exponent marker -/
-def takeNumber (hex : Bool) : List Char → List Char × List Char
-  | [] => ([], [])
-  | c :: cs =>
-    if (c == 'e' || c == 'E') && !hex then
-      match cs with
-      | s :: rest =>
-        if s == '+' || s == '-' then let (a, b) := takeNumber hex rest; (c :: s :: a, b)
-        else let (a, b) := takeNumber hex cs; (c :: a, b)
-      | [] => ([c], [])
-    else if c.isAlphanum || c == '.' || c == '_' then let (a, b) := takeNumber hex cs; (c :: a, b)
-    else ([], c :: cs)
+def isHexDigit (c : Char) : Bool := c.isDigit || ('a' ≤ c && c ≤ 'f') || ('A' ≤ c && c ≤ 'F')
+
+def countWhile (f : Char → Bool) : List Char → Nat
+  | [] => 0
+  | c :: cs => if f c then countWhile f cs + 1 else 0
+
+/-- how many characters `primitive::load` consumes (`none`: not a literal).  Only the extent is
+    modelled: sign (exponents only), `0x`/`0b` digits, digits and dots, the `L U F` suffixes and
+    an `E` exponent that is loaded recursively. -/
+def scanNum : Nat → Bool → List Char → Option Nat
+  | 0, _, _ => none
+  | fuel + 1, includeSign, cs =>
+    let signed := match cs with | c :: _ => c == '+' || c == '-' | [] => false
+    if signed && !includeSign then none else
+    let cs1 := if signed then cs.drop 1 else cs
+    let ws := if signed then countWhile isWs cs1 else 0
+    let cs2 := cs1.drop ws
+    let pre := (if signed then 1 else 0) + ws
+    let formatted := match cs2 with
+      | '0' :: x :: _ => x == 'x' || x == 'X' || x == 'b' || x == 'B'
+      | _ => false
+    let rec suffix (fuel : Nat) (formatted : Bool) : List Char → Nat
+      | [] => 0
+      | c :: rest =>
+        let C := c.toUpper
+        if C == 'L' || C == 'U' then suffix fuel formatted rest + 1
+        else if !formatted && C == 'E' then 1 + (scanNum fuel true rest).getD 0
+        else if !formatted && C == 'F' then suffix fuel formatted rest + 1
+        else 0
+    if formatted then
+      let isHex := match cs2 with | _ :: x :: _ => x == 'x' || x == 'X' | _ => false
+      let body := cs2.drop 2
+      let k := countWhile (fun c => if isHex then isHexDigit c else (c == '0' || c == '1')) body
+      if k == 0 then none else some (pre + 2 + k + suffix fuel true (body.drop k))
+    else
+      let n := countWhile (fun c => c.isDigit || c == '.') cs2
+      let d := ((cs2.take n).filter Char.isDigit).length
+      if d == 0 then none else some (pre + n + suffix fuel false (cs2.drop n))
 
 def udfOf (cs : List Char) : List Char × List Char :=
   match cs with
@@ -580,12 +615,13 @@ def lexFuel : Nat → List Char → Except Err (List Tok)
   | _ + 1, [] => .ok []
   | fuel + 1, c :: cs =>
     if isWs c then lexFuel fuel cs
-    else if c.isDigit || (c == '.' && (match cs with | d :: _ => d.isDigit | [] => false)) then
-      let hex := c == '0' && (match cs with | x :: _ => x == 'x' || x == 'X' | [] => false)
-      let (n, rest) := takeNumber hex (c :: cs)
-      match lexFuel fuel rest with
-      | .ok ts => .ok (.prim (String.ofList n) :: ts)
+    else if (c.isDigit || c == '.') && (scanNum (fuel + 1) false (c :: cs)).isSome &&
+            !(match (c :: cs).drop ((scanNum (fuel + 1) false (c :: cs)).getD 0) with | x :: _ => isIdStart x | [] => false) then
+      let n := (scanNum (fuel + 1) false (c :: cs)).getD 0
+      match lexFuel fuel ((c :: cs).drop n) with
+      | .ok ts => .ok (.prim (String.ofList ((c :: cs).take n)) :: ts)
       | .error x => .error x
+    else if c.isDigit then .error .lex        -- a literal glued to an identifier: "Unable to parse"
     else if isIdStart c then
       let (idc, rest) := takeWhileC isIdChar (c :: cs)
       let id := String.ofList idc
@@ -657,7 +693,7 @@ def lexFuel : Nat → List Char → Except Err (List Tok)
 
 def lex (cs : List Char) : Except Err (List Tok) := lexFuel (cs.length + 1) cs
 
-def builtinTypes : List String := ["int", "float", "double", "char", "long", "short", "bool", "void"]
+def builtinTypes : List String := ["int", "float", "double", "char", "short", "bool", "void"]
 
 /-- what `tokenContext_t::parseExpression` does to type keywords (the harness does the same for a
     builtin type name followed by `*`s): one vartype token -/
